@@ -231,7 +231,7 @@ var c29Blank bool
 var c29Keys = []string{"a", "b"}
 
 // numeric corner cases for values and deltas
-var c29Nums = []string{"5", "-3", "9223372036854775807", "-9223372036854775808", "abc", "", " "}
+var c29Nums = []string{"5", "-3", "0", "9223372036854775807", "-9223372036854775808", "abc", "", " "}
 
 // c29Payload: payload strings come from a small list (numeric payloads from
 // the corner-case list). A symbolic payload byte would run through the std-lib's
